@@ -202,12 +202,19 @@ def run(pid, tier, seed, replay, workdir, t0):
         print(f"KNOWN-FINDING: property={pid} {key} — {known[key].get('what', '')} (seen {n}x this run)")
     if new_v:
         seen = set()
+        per_key = collections.Counter()
         for v in new_v:
             if v["replay"] in seen:
                 continue
             seen.add(v["replay"])
+            per_key[v["key"]] += 1
+            if per_key[v["key"]] > 2:
+                continue
             print(f"VIOLATION property={pid} replay={v['replay']}")
             print(f"    sub={v['sub']} key={v['key']} :: {v['msg'][:500]}")
+        for k, n in per_key.items():
+            if n > 2:
+                print(f"    ... {n - 2} more witnesses with key={k} (replays under {os.path.join(VERIF, 'replays', pid)})")
         return 1
     if reasons:
         print(f"INCONCLUSIVE property={pid} reason=" + ";".join(reasons))
